@@ -11,6 +11,7 @@ import traceback
 from functools import lru_cache
 
 from hvsim import fixtures
+from hvsim.model import first_mismatch
 from hvsim.core import BudgetExceeded, RunResult, Violation, metered, rng_for, set_stream_align
 from hvsim.engines import chains, disk
 from hvsim.simfs import monitored
@@ -121,6 +122,18 @@ def gen_case(seed: int, prop: str, tier: str) -> dict:
                 if stride:
                     dcase["ops"] = gen.spray_ops(rng, dcase["cfg"]["nsectors"], F.unit_sectors(dcase["cfg"]), stride, count, 7000,
                                                  gran=F.sector_size(dcase["cfg"]) // 512) + dcase["ops"]
+        sweep = None
+        if fmt == "vhd" and rng.random() < 0.02:
+            # more allocation units than any per-object table cache holds (4096 and a few), small enough to sweep front to back
+            cfgv = dcase["cfg"]
+            cfgv["fixed"] = False
+            cfgv["block"] = 2048
+            cfgv["nsectors"] = (cfgv["block"] // 512) * rng.choice([4097, 4100, 4200]) - rng.choice([0, 1])
+            cfgv["far"] = False
+            from hvsim import gen
+
+            dcase["ops"] = gen.spray_ops(rng, cfgv["nsectors"], cfgv["block"] // 512, 1, 4300, 7000, gran=1)[:4300]
+            sweep = rng.choice([1024, 1536])
         src = {"kind": "stub", "fmt": fmt, "cfg": dcase["cfg"], "ops": dcase["ops"], "open": dcase["open"]}
         F = disk.fmt_module(fmt)
         size = dcase["cfg"]["nsectors"] * 512
@@ -135,11 +148,18 @@ def gen_case(seed: int, prop: str, tier: str) -> dict:
     nops = rng.choice([10, 20, 40] if tier == "quick" else [10, 30, 80, 200, 400])
     nclients = len(src["views"]) if src["kind"] == "chain" else rng.choice([1, 1, 2])
     hist = _gen_history(rng, size, sector, unit_bytes, marks, nops, nclients, [a1, a2], has_rs)
+    if src["kind"] == "stub" and locals().get("sweep"):
+        # front-to-back copy in small pieces through one object (every block is looked up, most reads continue the previous one)
+        a1 = a2 = 512
+        nclients = 1
+        hist = [["seek", 0, 0, 0]] + [["read", 0, sweep]] * (size // sweep + 2)
+        sweep_flag = True
     case = {"engine": "history", "prop": prop, "seed": seed, "src": src, "aligns": [a1, a2], "nclients": nclients,
             "cache": rng.choice([None, None, 1, 2, 7]), "hist": hist}
     # two reader objects built over one and the same caller-supplied handle object, used alternately: every reader positions
     # the handle itself before it reads, so what one object returns cannot depend on what the other one did in between
     case["share_handle"] = src["kind"] == "stub" and nclients == 2 and rng.random() < 0.4
+    case["sweep"] = bool(locals().get("sweep_flag"))
     return case
 
 
@@ -210,6 +230,7 @@ def _open(world: World, case: dict):
     if src["kind"] == "chain":
         cc = src["ccase"]
         open_fn, views, expect_fail, rs_fn = chains.build(cc, world)
+        world.chain_views = views  # reference content of every view (layered worlds are also compared with their model)
         return open_fn, (rs_fn if cc["kind"] in ("vhdx", "vmdk") else None), cc["sector"]
     if src["kind"] == "fixture":
         p = fixtures.install(world, src["name"])
@@ -265,7 +286,7 @@ def run_case(case: dict) -> RunResult:
     with world.fs, monitored():
         opener, rs_fn, sector = _open(world, case)
         for pass_no, align in enumerate(case["aligns"]):
-            if viol:
+            if viol or (pass_no and case.get("sweep")):
                 break
             set_stream_align(align)
             streams = {}
@@ -393,6 +414,13 @@ def run_case(case: dict) -> RunResult:
                 if kind != "rs" and s.tell() != pos[c]:
                     viol = v("position", f"{op}: position {s.tell()} after the call, contract says {pos[c]}")
                     break
+                if view_of is not None and getattr(world, "chain_views", None) is not None and want_len:
+                    # layered worlds: "the corresponding slice" is known - the view's reference content
+                    want = world.chain_views[view_of[c]].expected(at, want_len)
+                    if got != want:
+                        viol = v("not-the-view", f"{op} through view {view_of[c]} (align {align}, pass {pass_no}): returned bytes differ from that view's "
+                                                 f"content at +{first_mismatch(got, want)}")
+                        break
                 known = knowns.setdefault(view_of[c] if view_of else 0, Known())
                 bad = known.check_learn(at, got)
                 if bad >= 0:
